@@ -87,6 +87,16 @@ PROPS = {
         'Seeded search over histories that mix nine callback shapes (callable with exactly one prototype, with several, variadic), eight argument shapes (exact, convertible to one or several prototypes) and seven predicate shapes. The expected prototype of every shape is tabulated by hand ("first listed prototype it can be called with"). Checked: which callbacks run, in which order, with which (converted) argument values; queue FIFO across prototypes for process/processOne; processIf asks its predicate about exactly the queued events of its prototype and leaves every other event untouched and in place; payload integrity (pattern-filled 180-byte payload, tracked small payload, strings).',
         'Trusted: the hand-made prototype tables. For a predicate callable with several prototypes the oracle requires only exactly-once consumption with intact arguments (the statement leaves the rest open; a declining predicate legitimately lets later events overtake earlier ones). Harness types have explicit constructors so that no accidental conversion changes prototype selection.',
         'Each evaluation is one seeded history of 10-45 operations on one of the three heterogeneous classes (default and SingleThreading policies). Non-trivial = contains an invocation / dispatch / processing call; distinct = distinct plan hashes.'),
+    'C15': seq_prop('seq_remover', [st('c15', 'seq_remover', 'c15', 300000, 6000000)],
+        'seeded ScopedRemover lifecycle histories (add/remove through removers, reset, re-target, move construction, move assignment into empty and non-empty removers, swap, destruction in any order) against a responsibility model; attached set observed by enumeration after every step',
+        'Seeded search over histories with up to 3 removers and 2 targets (CallbackList, EventDispatcher, EventQueue). The model tracks which remover is responsible for which listener; what a move assignment displaces from its destination enters a limbo set (accepted attached or detached, once seen detached it must stay so, and must be detached when the last remover involved is destroyed) - exactly the window the statement gives.',
+        'Trusted: the responsibility model. Self-move-assignment is not generated; adding through a remover without a target (a null dereference by contract) is not generated.',
+        'Each evaluation is one seeded history of 10-40 operations. Non-trivial = a listener is added through a remover; distinct = distinct plan hashes.'),
+    'C16': seq_prop('seq_remover', [st('c16', 'seq_remover', 'c16', 300000, 6000000)],
+        'seeded trigger histories for CounterRemover / ConditionalRemover incl. re-entrant triggers from the wrapped listener, queued triggers and direct removals, in lockstep with a counting model (snapshot semantics for the listener lists)',
+        'Seeded search over histories with counts n in [-3,5], condition outcome sequences as bit patterns, conditions with and without the trigger argument, plain listeners before/after, direct and queued triggers, re-entrant triggers of the same key from inside the wrapped listener, and direct removals, on CallbackList, EventDispatcher, EventQueue and HeterEventDispatcher. The helper objects are temporaries destroyed before the first trigger. Every listener call and every condition evaluation is checked when it happens.',
+        'Trusted: the counting model. Wrapped listeners cannot be identified by enumeration, so attachment is observed through triggers (two closing trigger rounds per list).',
+        'Each evaluation is one seeded history of 10-40 operations. Non-trivial = a listener is added through CounterRemover or ConditionalRemover; distinct = distinct plan hashes.'),
     'C19': seq_prop('seq_list', [st('c19', 'seq_list', 'c19', 300000, 6000000)],
         'seeded histories with a generation-clock jump fault (guarded accessor) placed anywhere, including inside nested invocations; lockstep snapshot model with the statement\'s own relaxation for invocations in progress at the wrap',
         'The wrap of the 32-bit generation counter is injected as a forward clock jump on the list\'s logical clock (k = 0..6 additions before the maximum) at seeded points of re-entrant copy/move/swap histories. The harness learns the wrap moment by observation; only invocations in progress at that moment get the statement\'s relaxation, every later invocation is held to the strict model.',
@@ -119,7 +129,8 @@ PROPS = {
         'Every construction and destruction of every harness callback, listener and argument object is recorded by address. Immediately flagged: double destruction, copy/move/invoke of a non-live or wrong-type instance. At every quiescent point: a callback that is in no container has no live instance, a stored one has at least one per holder; arguments of cleared events are gone when clearEvents returns; after destroying every container nothing is alive.',
         'Trusted: the ledger (sim/ledger.h). The number of transient copies std::function makes is never counted, only liveness at quiescence. The documentation lets queue slots keep arguments until reuse; the check asks no more than the statement.',
         'Each evaluation is one seeded re-entrant program over a pool of lists/dispatchers (stage c08-list) or queues (stage c08-queue) with scripts, pool operations and counter jumps enabled together. Non-trivial = contains an invocation / processing call; distinct = distinct plan hashes.'),
-    'C09': seq_prop('seq_list', [st('c09-list', 'seq_list', 'c09', 12000, 400000, 120, 1200), st('c09-queue', 'seq_queue', 'c09', 8000, 250000, 120, 1200)],
+    'C09': seq_prop('seq_list', [st('c09-list', 'seq_list', 'c09', 12000, 400000, 120, 1200), st('c09-queue', 'seq_queue', 'c09', 8000, 250000, 120, 1200),
+         st('c09-dispatcher', 'seq_disp', 'c09', 8000, 250000, 120, 1200), st('c09-heter', 'seq_heter', 'c09', 8000, 250000, 120, 1200), st('c09-removers', 'seq_remover', 'c09', 8000, 250000, 120, 1200)],
         'systematic fault injection: for every operation of every seeded history, a throw at the k-th fault point for every k (allocation through a replaced operator new; copy, move, comparison and invocation of user types), singly and with a seeded second fault later in the same execution',
         'For each seeded plan the harness first runs fault-free and records, per top-level operation i, the number N_i of fault points it passes; it then re-executes the plan once for every (i, k <= N_i) with the k-th point of operation i throwing (std::bad_alloc for allocations, InjectedFault otherwise). Checked: the exception reaches the caller (no terminate, no swallowed fault); strong-guarantee operations leave the complete observable state equal to the model\'s pre-call state; failed container copies leave the source intact and the destination valid; an exception out of an invocation / processing call leaves the lists as the callbacks left them and discards exactly the events that call had taken out; the rest of the plan conforms fault-free; nothing leaks.',
         'Enumeration is exhaustive per generated history (every k), histories are sampled by seed. Trusted: the replaced operator new covers every allocation of the binary; faults are armed only for the duration of library calls.',
